@@ -136,6 +136,14 @@ def move_case(cid, rng, cfg, imgs):
         im2, b2 = rng.choice(imgs)
         lines += ["obj 0", "load str 0 " + hx(b2), "obj 2"]
     t = ["hashelf 6d61726b"] + tail_ops(rng)
+    if how == "compr" and rng.random() < 0.7:
+        # the destination is edited like any other object built with a compression interface: a section flagged as
+        # compressed is added AFTER the move, then the object is saved (the interface must have moved along)
+        k = 2 + sum(1 for l in ops if l.startswith("addsec"))
+        edit = ["addsec " + hx(b".zadded"), "secset %d type 1" % k, "secset %d flags %d" % (k, rng.choice([0x800, 0x08000000])),
+                "dset %d %s" % (k, hx(rbytes(rng, rng.choice([1, 16, 40]))))]
+        sv = t.index("save")
+        t = [x for x in t[:sv] if not x.startswith("addsec")] + edit + t[sv:]
     for op in t:
         lines += ["obj 1", op, "obj 2", op]
     c = Case(cid, lines, {"kind": "move", "ref": 1, "dst": 2, "desc": desc, "source_event": ev != "none"})
